@@ -10,9 +10,11 @@ META = {
     'text': 'Kernel-checked, unbounded: choosePatches returns a sublist of the computed patches, at most MaxUpgrades of them, pairwise compatible, none introducing when NoIntroduce; '
             'no vulnerability fixed by a chosen patch is marked unactionable; ConstructPatches reports exactly old∖new and new∖old, hence new = old − fixed + introduced; its update list is the '
             'requirement diff keyed by manifest ENTRY (name + npm alias / Maven type), one update per changed entry; substituting '
-            'the reported requirement updates into the old requirements gives the patched requirements; given WriterCorrect (C13, proved for package.json, proved for the literal '
-            'pom fragment and checked by correspondence otherwise) the fresh analysis of the written manifest equals the analysis the report was computed from; no patch implies '
-            'unchanged requirements. The resolver and matcher are parameters (analysis is a function of the requirements). The end-to-end stream runs the real FixVulns on generated '
+            'the reported requirement updates into the old requirements gives the patched requirements; the pipeline model has Write (with failure), Read, resolve+match as one '
+            'deterministic function of the requirements, and the options\' ExplicitVulns handling (ignore list computed from the ORIGINAL graph only): for runs without ExplicitVulns and a '
+            'correct writer the fresh analysis of the RE-READ file is the original minus the reported fixed plus the reported introduced (C12_roundtrip_partial); WriterCorrect is discharged '
+            'for package.json by C13\'s theorem (C12_npm_writer_correct), holds for pom.xml on the literal fragment only and fails in the recorded C13 pom classes; with an ExplicitVulns list '
+            'the equation is false for the unchanged code (C12_explicit_vulns_witness = known finding). No patch implies unchanged requirements. The end-to-end stream runs the real FixVulns on generated '
             'npm/relax and Maven/override universes and lets the Lean specification judge: original − fixed + introduced = second analysis (single patch), the re-read manifest entries = the '
             'original entries with the reported updates substituted (per entry, aliases included), requirements unchanged when no patch, nothing fixed is unactionable.',
     'note': 'Trusted: Lean kernel (axioms propext/Quot.sound/Classical.choice at most); determinism of the deps.dev resolvers and of the matcher (parameters); the C13 trust base for the '
@@ -20,8 +22,11 @@ META = {
             'unactionable and compatibility statements are checked. Lockfile-based (in-place) remediation is outside C12.',
 }
 P = 'Scalibr.Pipeline.'
-THEOREMS = [P + 'C12_choose_sublist', P + 'C12_unactionable', P + 'C12_patch_is_diff', P + 'C12_after_is_expected', P + 'C12_update_per_entry', P + 'C12_alias_pair_witness', P + 'C12_updates_substitute',
-            P + 'C12_roundtrip', P + 'C12_no_patch_no_change', P + 'C12_duplicate_witness', 'Scalibr.Npm.C12_writer_correct_npm']
+THEOREMS = [P + 'C12_choose_sublist', P + 'C12_unactionable', P + 'C12_patch_is_diff_partial', P + 'C12_after_is_expected_partial',
+            P + 'C12_update_per_entry_partial', P + 'C12_alias_pair_witness', P + 'C12_updates_substitute_partial',
+            P + 'C12_roundtrip_partial', P + 'C12_chosen_patch_is_real_partial', P + 'C12_no_patch_no_change_partial',
+            P + 'C12_explicit_vulns_witness', P + 'C12_duplicate_witness',
+            'Scalibr.Npm.C12_npm_writer_correct', 'Scalibr.Npm.C12_npm_roundtrip_partial']
 
 
 def run(ctx):
